@@ -19,7 +19,199 @@ import (
 )
 
 func init() {
-	registerProp("C11", genC11, map[string]func(*sim){"node": runC11})
+	registerProp("C11", genC11All, map[string]func(*sim){"node": runC11, "split": runC11Split})
+}
+
+// genC11All: most runs observe the running router at its send path (world "node"); one run in four
+// hands generated RPCs of every shape directly to RPC.split (world "split"). The second is plain
+// input generation for a pure function - no schedule, clock or fault is involved - and is here
+// because the node's own code paths only ever produce a few RPC shapes (no subscriptions next to
+// control, no partial message next to gossip, ...), which the property's quantifier does not
+// exclude.
+func genC11All(seed uint64, tier string) *Plan {
+	r := newPrng(seed, "c11-world")
+	if r.chance(0.25) {
+		p := &Plan{World: "split", Knobs: map[string]float64{}}
+		n := 4
+		if tier == "thorough" {
+			n = 8
+		}
+		for k := 0; k < n; k++ {
+			p.Items = append(p.Items, Item{Op: "rpc", A: []int64{int64(r.intn(1 << 30)), int64(r.intn(6))}})
+		}
+		return p
+	}
+	return genC11(seed, tier)
+}
+
+func runC11Split(s *sim) {
+	p := s.plan
+	checked := 0
+	for _, it := range p.Items {
+		if len(s.viol) > 0 {
+			break
+		}
+		s.steps++
+		r := newPrng(p.Seed, fmt.Sprintf("c11split%d", it.a(0)))
+		topics := []string{"t", "topic-with-a-longer-name-" + strings.Repeat("x", r.rng(0, 40)), ""}
+		tp := func() *string { t := topics[r.intn(len(topics))]; return &t }
+		id := func() string { return string(r.bytes([]int{1, 4, 20, 40}[r.intn(4)])) }
+		rpc := &pb.RPC{}
+		tr, fa := true, false
+		if r.chance(0.4) {
+			for k := r.rng(1, 6); k > 0; k-- {
+				rpc.Subscriptions = append(rpc.Subscriptions, &pb.RPC_SubOpts{Topicid: tp(), Subscribe: []*bool{&tr, &fa}[r.intn(2)]})
+			}
+		}
+		if r.chance(0.5) {
+			for k := r.rng(1, 6); k > 0; k-- {
+				rpc.Publish = append(rpc.Publish, &pb.Message{Data: r.bytes([]int{0, 1, 30, 90, 200, 600}[r.intn(6)]), Topic: tp(), From: r.bytes(r.intn(2) * 38), Seqno: r.bytes(r.intn(2) * 8)})
+			}
+		}
+		if r.chance(0.8) {
+			c := &pb.ControlMessage{}
+			for k := r.intn(3); k > 0; k-- {
+				h := &pb.ControlIHave{TopicID: tp()}
+				for j := r.intn(14); j > 0; j-- {
+					h.MessageIDs = append(h.MessageIDs, id())
+				}
+				c.Ihave = append(c.Ihave, h)
+			}
+			for k := r.intn(3); k > 0; k-- {
+				w := &pb.ControlIWant{}
+				for j := r.intn(14); j > 0; j-- {
+					w.MessageIDs = append(w.MessageIDs, id())
+				}
+				c.Iwant = append(c.Iwant, w)
+			}
+			for k := r.intn(4); k > 0; k-- {
+				c.Graft = append(c.Graft, &pb.ControlGraft{TopicID: tp()})
+			}
+			for k := r.intn(4); k > 0; k-- {
+				pr := &pb.ControlPrune{TopicID: tp()}
+				if r.chance(0.5) {
+					b := uint64(r.intn(100))
+					pr.Backoff = &b
+				}
+				for j := r.intn(3); j > 0; j-- {
+					pr.Peers = append(pr.Peers, &pb.PeerInfo{PeerID: r.bytes(38), SignedPeerRecord: r.bytes(r.intn(2) * 80)})
+				}
+				c.Prune = append(c.Prune, pr)
+			}
+			for k := r.intn(3); k > 0; k-- {
+				d := &pb.ControlIDontWant{}
+				for j := r.intn(14); j > 0; j-- {
+					d.MessageIDs = append(d.MessageIDs, id())
+				}
+				c.Idontwant = append(c.Idontwant, d)
+			}
+			if r.chance(0.2) {
+				c.Extensions = &pb.ControlExtensions{PartialMessages: &tr}
+			}
+			rpc.Control = c
+		}
+		if r.chance(0.25) {
+			rpc.Partial = &pb.PartialMessagesExtension{TopicID: tp(), GroupID: r.bytes(3), PartialMessage: r.bytes([]int{0, 10, 120}[r.intn(3)]), PartsMetadata: r.bytes(r.intn(2) * 6)}
+		}
+		if r.chance(0.1) {
+			rpc.TestExtension = &pb.TestExtension{}
+		}
+		orig := canonRPC(rpc)
+		if len(orig) == 0 {
+			continue
+		}
+		size := rpc.Size()
+		// limits from the minimum up to beyond the RPC's own size, the boundaries included
+		var limit int
+		switch it.a(1) {
+		case 0:
+			limit = r.rng(10, 60)
+		case 1:
+			limit = r.rng(60, 300)
+		case 2:
+			limit = size - r.rng(0, 3)
+		case 3:
+			limit = size + r.rng(0, 3)
+		case 4:
+			limit = size/2 + r.rng(-2, 2)
+		default:
+			limit = r.rng(10, size+20)
+		}
+		if limit < 8 {
+			limit = 8
+		}
+		shape := shapeRPC(rpc)
+		want := map[string]int{}
+		for _, e := range orig {
+			want[e]++
+		}
+		got := map[string]int{}
+		var msgOrder []string
+		nfrag := 0
+		in := &RPC{RPC: *rpc}
+		for f := range in.split(limit) {
+			nfrag++
+			fc := canonRPC(&f.RPC)
+			fs := f.Size()
+			if len(fc) == 0 {
+				s.violate("C11", "empty", "C11/split/empty-fragment", "split(%d) of a %d-byte RPC (shape %s) yielded a fragment without content", limit, size, shape)
+			}
+			if fs > limit && len(fc) > 1 {
+				s.violate("C11", "size", "C11/split/fragment-over-limit", "split(%d) of a %d-byte RPC (shape %s) yielded a fragment of %d bytes with %d elements", limit, size, shape, fs, len(fc))
+			}
+			if fs > limit && len(fc) == 1 {
+				s.probe("split_single_oversized_element")
+			}
+			for _, e := range fc {
+				got[e]++
+				if strings.HasPrefix(e, "msg|") {
+					msgOrder = append(msgOrder, e)
+				}
+			}
+		}
+		checked++
+		if size >= limit {
+			s.probe("split_needed")
+		}
+		var keys []string
+		for e := range want {
+			keys = append(keys, e)
+		}
+		for e := range got {
+			if want[e] == 0 {
+				keys = append(keys, e)
+			}
+		}
+		sort.Strings(keys)
+		for _, e := range keys {
+			kind := e
+			if i := strings.IndexByte(e, '|'); i > 0 {
+				kind = e[:i]
+			}
+			switch {
+			case got[e] < want[e]:
+				s.violate("C11", "conservation", "C11/split/lost/"+kind, "split(%d) of a %d-byte RPC (shape %s): element %s present %d times, yielded %d times", limit, size, shape, e, want[e], got[e])
+			case got[e] > want[e]:
+				s.violate("C11", "conservation", "C11/split/duplicated/"+kind, "split(%d) of a %d-byte RPC (shape %s): element %s present %d times, yielded %d times", limit, size, shape, e, want[e], got[e])
+			}
+		}
+		var wantOrder []string
+		for _, e := range orig {
+			if strings.HasPrefix(e, "msg|") {
+				wantOrder = append(wantOrder, e)
+			}
+		}
+		if len(wantOrder) == len(msgOrder) {
+			for i := range wantOrder {
+				if wantOrder[i] != msgOrder[i] {
+					s.violate("C11", "order", "C11/split/message-order", "split(%d) reordered the published messages (shape %s)", limit, shape)
+					break
+				}
+			}
+		}
+	}
+	s.nontrivial = checked > 0
+	s.class = fmt.Sprintf("split/%x", shortHash([]byte(c02ClassStr(p))))
 }
 
 func stackHas(fn string) bool {
